@@ -19,8 +19,8 @@ CHECKS = {
          "Exploration: ~1.5k (quick) / ~57k (thorough) chains of 1-4 stages on hard and LJ states of all groups (4M+ evaluated states range-checked in quick), with bounds re-derived from each stage's own start, labels and degrees of freedom per family, finite defined score of the re-read result, no panic; and from_group validity for every group x {polygon 3..64, circle, trimers} x potential.",
          "Ranges are those stated by the property, not read from the code; results are read back through serde JSON as a user would.",
          "DESIGN.md 5 C08"),
- "C20": ("trace monitor call counting + bit-exact prefix comparison of convergent vs full runs + loop-boundary convergence rule; process-boundary classifier on the real CLI",
-         "Exploration: ~3k (quick) / ~96k (thorough) library configurations over steps/inner_steps in {0,1,2,3,7,999,1000,1001,2500,1e5} x temperatures x schedules x thresholds (no panic, work within [steps - one loop, steps], convergent run an exact prefix, exit at exactly the loop the rule dictates) and ~110 (quick) / ~2500 (thorough) runs of the real binary classified by exit status, stderr and output files.",
+ "C20": ("trace monitor call counting + bit-exact prefix comparison of convergent vs full runs + loop-boundary convergence rule; process-boundary classifier on the real CLI incl. syscall fault injection (strace) on the output files",
+         "Exploration: ~3k (quick) / ~96k (thorough) library configurations over steps/inner_steps in {0,1,2,3,7,999,1000,1001,2500,1e5} x temperatures x schedules x thresholds (no panic, work within [steps - one loop, steps], convergent run an exact prefix, exit at exactly the loop the rule dictates) and ~120 (quick) / ~2500 (thorough) runs of the real binary (incl. debug logging on, 'run until converged' step counts, unwritable paths) classified by exit status, stderr and output files; plus fault enumeration: each of the six system calls on the two output files made to fail in turn with ENOSPC/EIO/EACCES/EINTR (72 fault points). Library cases that can abort the process (allocation failure) run in a child process.",
          "The convergence rule is decided only when the loop-boundary scores are unambiguous from the trace (counted in the evidence).",
          "DESIGN.md 5 C20"),
  "C05": ("trace monitor (candidate-set automaton over State::score() calls) on scripted and Spy-wrapped real states across the optimiser configuration space at kt_start = 0",
@@ -31,8 +31,8 @@ CHECKS = {
          "Exploration: ~5k (quick) / ~240k (thorough) runs with k = 1..24 parameters, scripted reject runs / alternation / undefined scores, bounds hit on every move or never, parameters starting outside their range, all temperatures: each evaluated vector must differ from a possible current state in at most one parameter and the returned state must be a possible current state. Sanitizer leg (Miri on the UnsafeCell undo mechanism) in the thorough tier.",
          "Observation at the State boundary only; single-parameter states cannot resolve decisions (set semantics).",
          "DESIGN.md 3.2, 5 C06"),
- "C07": ("trace monitor for the deterministic clauses + anchor/probe/sentinel acceptance-frequency estimator with Chernoff/KL bounds for exp(-d/kT)",
-         "Exploration / statistical: deterministic clauses on ~20M resolved decisions (quick); acceptance frequencies of 84 (d,kT,k) cells with 2e4 (quick) / 1e6 (thorough) probes each, flagged only when a conservative tail bound is < 1e-12; lag-1 autocorrelation of accept flags.",
+ "C07": ("trace monitor for the deterministic clauses + anchor/probe/sentinel acceptance-frequency estimator with Chernoff/KL bounds for exp(-d/kT) + short-run conditional frequencies over many seeds",
+         "Exploration / statistical: deterministic clauses on ~20M resolved decisions (quick); acceptance frequencies of 84 (d,kT,k) cells with 2e4 (quick) / 1e6 (thorough) probes each, flagged only when a conservative tail bound is < 1e-12; lag-1 autocorrelation of accept flags; 108k (quick) / 3.6M (thorough) one- and two-step runs with acceptance tallied per moved parameter and previous direction.",
          "A probability is estimated, not proved; deviations below ~3% relative at n = 1e6 are invisible.",
          "DESIGN.md 5 C07"),
  "C18": ("per-loop acceptance-frequency inference of the temperature from scripted probes vs the interval of schedules the property allows",
@@ -59,7 +59,7 @@ CHECKS = {
          "Exploration: ~0.3M (quick) / ~25M (thorough) states with chiral test shapes (handedness-sensitive) and the CLI's shapes, plus thousands of states after 1-3 chained optimisation stages read back through JSON; every operation must be orthogonal for the current cell and map the set of placed shapes onto itself modulo the lattice.",
          "Trusts the ITA table (C16) and the lattice model; placements are taken from cartesian_positions().",
          "DESIGN.md 5 C04"),
- "C12": ("differential runtime monitor: Intersect::intersects (both argument orders, moved frames) vs separating-axis depth / centre distance, with constructed alignments",
+ "C12": ("differential runtime monitor: Intersect::intersects (both argument orders, moved frames, two-step placements, JSON-loaded shapes) vs separating-axis depth / centre distance, with constructed alignments on regular and irregular convex polygons",
          "Exploration: ~2.5M (quick) / ~250M (thorough) placed pairs: random and constructed (coincident, parallel edges slid with face contact at 2 r_in(1 +- 1e-12..1e-3), shared vertex, vertex on edge, mirror images, disc contact) under identity / k pi/4 / far-from-origin / reflected frames. An answer is required only when |depth| > 1e-9.",
          "Convex shapes only (SAT). Oracle depth is computed from the library-placed coordinates, which are themselves compared with the base geometry under the transform.",
          "DESIGN.md 5 C12"),
@@ -72,7 +72,7 @@ CHECKS = {
          "Exploration: every Cell2 view (to_cartesian*, periodic_images as a set, area, centre, corners) is compared with A=(a,0), B=(b cos t, b sin t) on ~0.8M (quick) / ~100M (thorough) random and special cells, placements and shell counts. Holds on the executions produced; the real-number quantifier is sampled.",
          "Trusts the 30-line lattice model in harness/src/oracle/lattice.rs and f64 arithmetic to 1e-12 relative.",
          "DESIGN.md 5 C14"),
- "C15": ("runtime monitor on relative_positions() of JSON-built states vs ITA operations, incl. ulp-level boundary inputs",
+ "C15": ("runtime monitor on relative_positions() of JSON-built states vs ITA operations, incl. ulp-level boundary inputs and set/reset/sample histories on one reused state",
          "Exploration: placements of ~1.6M (quick) / ~190M (thorough) sites - uniform, exactly on faces and special positions, 1-4 ulps either side of +-1/2, denormal negatives - are matched one-to-one to the ITA operations, checked for canonical-cell membership and for invariance under whole-lattice shifts / 2pi turns.",
          "Trusts the ITA table (also checked by C16) and exact transport of doubles through serde_json::Value.",
          "DESIGN.md 5 C15"),
